@@ -23,7 +23,13 @@ class _BuildTree:
     """structural reading of Parser::build_tree: the token cursor (the local handed to `tokens.get(..)`), the emissions, the trailing loop"""
 
     def __init__(self, run, model):
-        self.f = bt = model.fn("build_tree", PARSER)
+        real = model.fn("build_tree", PARSER)
+
+        class _Inl:
+            """build_tree with its private helpers put back in place (their parameters named as the caller's variables)"""
+            name, file, node, qual = real.name, real.file, real.node, real.qual
+            body = model.inlined_body(real, rename=True)
+        self.f = bt = _Inl
         gets = [c for c in S.walk(bt.body) if c["k"] == "MethodCall" and c["method"] == "get" and c["args"] and c["args"][0]["k"] == "Path"
                 and len(c["args"][0]["segs"]) == 1 and "tokens" in S.idents(c["recv"])]
         names = [c["args"][0]["segs"][0] for c in gets]
@@ -120,6 +126,15 @@ def r12_1(run, model):
         run.ob("R12.1", f"{name}|repr(u16)", ok, site(rel, e["node"]["sp"]), "enum has #[repr(u16)]" if ok else "missing repr")
 
 
+def _hands_back(e, cur):
+    """`cursor = helper(.., cursor)` after inlining: a block of the helper's statements whose value is the cursor itself - the moves are
+    the ones inside the block"""
+    if e.get("k") == "Block" and e.get("inlined") and e["stmts"]:
+        last = e["stmts"][-1]
+        return last["k"] == "ExprStmt" and not last.get("semi") and S.is_path(last["expr"], cur)
+    return False
+
+
 def r12_2(run, model):
     run.rule("R12.2", "every token enters the tree exactly once: each builder.token(..) is followed by `cursor += 1` in the same block, "
                       "nothing else moves the cursor, Parser::advance pushes exactly one Advance per skipped token, and file() loops "
@@ -149,7 +164,7 @@ def r12_2(run, model):
                        witness="a token is emitted twice or skipped: the tree text differs from the input")
     run.floor("token emission sites in build_tree", n, 2)
     moves = [x for x in S.walk(bt.body) if x["k"] == "Binary" and x["op"] in ("+=", "-=") and S.is_path(x.get("left", x.get("lhs")), cur)] + \
-            [x for x in S.walk(bt.body) if x["k"] == "Assign" and S.is_path(x["left"], cur)]
+            [x for x in S.walk(bt.body) if x["k"] == "Assign" and S.is_path(x["left"], cur) and not _hands_back(x["right"], cur)]
     run.ob("R12.2", "build_tree|cursor moves only with an emitted token", len(moves) == n, site(PARSER, bt.node["sp"]), f"{len(moves)} cursor updates for {n} emissions")
     adv = model.fn("advance", PARSER, impl="Parser")
     t = S.norm_ws(run.facts.text(PARSER, adv.body["sp"]))
@@ -314,8 +329,8 @@ def r12_5(run, model, mir):
                             if nm in lets and nm not in seen:
                                 seen.add(nm)
                                 work.extend(lets[nm])
-                    calls_ = {c["method"] for x in exprs for c in S.walk(x) if c["k"] == "MethodCall"} | \
-                             {S.callee_name(c) for x in exprs for c in S.walk(x) if c["k"] == "Call"}
+                    calls_ = {c["method"] for x in exprs for c in S.walk(x) if c["k"] == "MethodCall" and not c.get("inlined_call")} | \
+                             {S.callee_name(c) for x in exprs for c in S.walk(x) if c["k"] == "Call" and not c.get("inlined_call")}
                     fields = {c.get("member") for x in exprs for c in S.walk(x) if c["k"] == "Field"}
                     ok = any(B.is_cur_get(x) for x in exprs) and "last" in calls_ and "range" in fields and \
                         calls_ <= {"get", "last", "map", "or", "or_else", "and_then", "copied", "cloned", "as_ref"} and fields <= {"range"}
